@@ -1,3 +1,61 @@
+/-
+  Props/C03.lean — C03: a step's position map describes exactly what the step did to the document.
+  Token-level semantics of the steps: Proofs/StepToks.lean.  Helper lemmas: Proofs/StepMap.lean.
+-/
 import PM.Step
+import PM.Transform
+import Proofs.StepToks
+import Proofs.StepMap
 namespace PM.C03
+open PM
+
+/-- Σ (new − old) over the ranges of a map -/
+def mapDelta (m : StepMap) : Int := (m.ranges.map (fun r => r.2.2 - r.2.1)).sum
+
+/-- token index `i` lies outside every replaced range of the map -/
+def outside (m : StepMap) (i : Int) : Prop := ∀ r, r ∈ m.ranges → i < r.1 ∨ r.1 + r.2.1 ≤ i
+
+/-- **replace step**: size changes by the map's delta, and every old token outside the replaced
+    range is found unchanged at the mapped position -/
+theorem replace_map_faithful (S : Schema) (doc doc' : Node) (f t : Nat) (sl : Slice) (st : Bool)
+    (h : S.apply (.replace f t sl st) doc = .ok doc') :
+    let m := (Step.replace f t sl st).getMap
+    (fsize doc'.kids : Int) - fsize doc.kids = mapDelta m ∧
+    ∀ i : Nat, i < fsize doc.kids → outside m i →
+      (ftoks doc'.kids)[(m.map i 1).toNat]? = (ftoks doc.kids)[i]? := by
+  sorry
+
+/-- **replace-around step**: two ranges around the preserved gap -/
+theorem replaceAround_map_faithful (S : Schema) (doc doc' : Node) (f t gf gt : Nat) (sl : Slice)
+    (ins : Nat) (st : Bool) (hwf : sl.wf = true) (hins : (ins : Int) ≤ sl.size)
+    (hg : f ≤ gf ∧ gf ≤ gt ∧ gt ≤ t)
+    (h : S.apply (.replaceAround f t gf gt sl ins st) doc = .ok doc') :
+    let m := (Step.replaceAround f t gf gt sl ins st).getMap
+    (fsize doc'.kids : Int) - fsize doc.kids = mapDelta m ∧
+    ∀ i : Nat, i < fsize doc.kids → outside m i →
+      (ftoks doc'.kids)[(m.map i 1).toNat]? = (ftoks doc.kids)[i]? := by
+  sorry
+
+/-- **mark, node-mark, attribute and doc-attribute steps** report the empty map, keep the size, and
+    keep structure and text token by token (only markup of tokens changes) -/
+theorem markup_steps_empty_map (S : Schema) (doc doc' : Node) (st : Step)
+    (hk : ∀ f t sl b, st ≠ .replace f t sl b) (hk' : ∀ f t gf gt sl i b, st ≠ .replaceAround f t gf gt sl i b)
+    (h : S.apply st doc = .ok doc') :
+    st.getMap = ⟨[], false⟩ ∧
+    (ftoks doc'.kids).map Tok.shape = (ftoks doc.kids).map Tok.shape ∧
+    ∀ p a, st.getMap.map p a = p := by
+  sorry
+
+/-- consequently: a position outside the changed ranges, mapped through the step, points at the
+    same content (the token after it) as before -/
+theorem mapped_position_same_content (S : Schema) (doc doc' : Node) (f t : Nat) (sl : Slice) (st : Bool)
+    (h : S.apply (.replace f t sl st) doc = .ok doc') (p : Nat) (hp : p < f ∨ t ≤ p) (hps : p < fsize doc.kids) :
+    ((ftoks doc'.kids).drop ((Step.replace f t sl st).getMap.map p 1).toNat).head? = ((ftoks doc.kids).drop p).head? := by
+  sorry
+
+/-- **Transform.mapping is the list of the recorded steps' maps**, whatever was attempted -/
+theorem mapping_is_step_maps (S : Schema) (doc : Node) (sts : List Step) :
+    ((Tr.init doc).run S sts).maps = ((Tr.init doc).run S sts).steps.map Step.getMap := by
+  sorry
+
 end PM.C03
